@@ -222,7 +222,7 @@ func (m *ModulusBasic) modSqrtGeneric(out, x *Nat) ct.Bool {
 
 // ModSqrt sets out = sqrt(x) (mod m) if it exists.
 func (m *ModulusBasic) ModSqrt(out, x *Nat) ct.Bool {
-	if m.Nat().IsProbablyPrime() == ct.True {
+	if m.Nat().IsOdd()&m.Nat().IsProbablyPrime() == ct.True { // the prime path needs an odd modulus (2 is handled below)
 		return m.modSqrtPrime(out, x)
 	} else {
 		return m.modSqrtGeneric(out, x)
